@@ -65,7 +65,7 @@ def run(ctx, res):
                 "evaluations = strings enumerated; non-trivial = patterns with a search mode and at least one match; exhaustive within the bound")
     S = 700 + (ctx.seed % 50) * 5
     if ctx.tier == "quick":
-        plan = [("accel", ["-n", "450", "-rtl", "both"]), ("frag", ["-n", "200", "-profile", "fragment", "-rtl", "both"])]
+        plan = [("accel", ["-n", "600", "-rtl", "both"]), ("frag", ["-n", "120", "-profile", "fragment", "-rtl", "both"])]
     else:
         plan = [("accel%d" % i, ["-n", "2500", "-rtl", "both"]) for i in range(4)] + \
                [("frag%d" % i, ["-n", "2000", "-profile", "fragment", "-rtl", "both"]) for i in range(2)] + \
